@@ -131,7 +131,18 @@ def check_array(ctx, case):
     sig = 'array/%s/%s' % (how, overflow)
     inp = list(ks) if how.startswith('list') else np.array(ks, dtype=object)
     before = repr(inp)
-    ok, x = ctx.guard(case, lambda: F(inp, s, w, f, raw=not value_mode, overflow=overflow), sig_prefix=sig + '/')
+    def build():
+        if not how.startswith('setitem'):
+            return F(inp, s, w, f, raw=not value_mode, overflow=overflow)
+        # element by element into an existing wide array (indexed assignment / set_val(index=))
+        x = F([0] * len(ks), s, w, f, overflow=overflow)
+        for i, k in enumerate(ks):
+            if value_mode:
+                x[i] = k
+            else:
+                x.set_val(k, raw=True, index=i)
+        return x
+    ok, x = ctx.guard(case, build, sig_prefix=sig + '/')
     if not ok:
         return
     items = np.asarray(x.val).ravel().tolist()
@@ -318,10 +329,10 @@ def task_grid(ctx, words, nrand, seed):
                     big = [k for k in codes if abs(k) >= (1 << 63)][:6]
                     mixed = [codes[0], 5, codes[-1], -3 if s else 3, (1 << 64) - 1, 7]
                     for name, arr in (('homog', big), ('mixed', mixed), ('inrange-mixed', [hi, 1, lo, 2, (1 << 63), 0])):
-                        for how in ('list-raw', 'object-raw', 'list-value'):
-                            if how == 'list-value' and f > w // 2:
+                        for how in ('list-raw', 'object-raw', 'list-value', 'setitem-raw', 'setitem-value'):
+                            if how.endswith('value') and f > w // 2:
                                 continue
-                            a2 = [k >> f for k in arr] if how == 'list-value' else arr
+                            a2 = [k >> f for k in arr] if how.endswith('value') else arr
                             ctx.cls('array')
                             if name != 'homog':
                                 ctx.cls('array-mixed')
@@ -363,8 +374,8 @@ def st_case(draw):
     n = draw(st.integers(1, 6))
     small = st.integers(-100, 100) if s else st.integers(0, 100)
     codes = [draw(st.one_of(big, small)) for _ in range(n)]
-    how = draw(st.sampled_from(['list-raw', 'object-raw', 'list-value']))
-    if how == 'list-value':
+    how = draw(st.sampled_from(['list-raw', 'object-raw', 'list-value', 'setitem-raw', 'setitem-value']))
+    if how.endswith('value'):
         if f > w // 2:
             f = 0
         codes = [k >> f for k in codes]
